@@ -862,7 +862,7 @@ func main() {
 			nChainVariants[k] = len(cvariantsOf[k])
 		}
 	}
-	var recreatedInBlock int64
+	var recreatedInBlock, revertedResurrection int64
 	var recreated int64
 	var cmu sync.Mutex
 	var clearThenRead, readOK int64
@@ -924,13 +924,21 @@ func main() {
 		}
 		// measured: ONE block destructs the contract and re-funds / re-creates the same address (both receipts successful, the
 		// address exists afterwards), and a LATER block pays it directly or through the forwarder
-		both := false
+		both, undone := false, false
 		for k, b := range j.blocks {
 			o := cr.ref[k]
 			nm := seqName(b)
 			allOK := len(o.Receipts) == len(b)
 			for _, rc := range o.Receipts {
 				allOK = allOK && rc.Status == 1
+			}
+			if (nm == "killA,rvA" || nm == "killA,oogA") && len(o.Receipts) == 2 && o.Receipts[0].Status == 1 && o.Receipts[1].Status == 0 && strings.HasPrefix(o.ReadBack, "exists=false") {
+				undone = true
+			} else if undone && (nm == "payA" || nm == "fwdA" || nm == "mk2B") && allOK {
+				cmu.Lock()
+				revertedResurrection++
+				cmu.Unlock()
+				undone = false
 			}
 			switch {
 			case (nm == "killA,payA" || nm == "killA,mk2B") && allOK && strings.HasPrefix(o.ReadBack, "exists=true"):
@@ -959,6 +967,7 @@ func main() {
 	r.Set("chain_variants", nChainVariants)
 	r.Set("chains_recreating_the_contract_at_the_same_address_after_selfdestruct", recreated)
 	r.Set("chains_destructing_and_recreating_in_one_block_then_paying_the_address", recreatedInBlock)
+	r.Set("chains_with_a_reverted_value_call_to_the_destructed_contract_then_touching_it", revertedResurrection)
 	r.Set("chains_clearing_a_genesis_slot_then_reading_it", clearThenRead)
 
 	// 3. blocks
@@ -1218,6 +1227,7 @@ func main() {
 		"distinct_nontrivial = distinct (template sequence, parent state) whose reference execution executed >= 1 transaction successfully or skipped >= 1 transaction (measured from receipts); "+
 		"chains = every sequence of "+fmt.Sprint(chainBlocks)+" consecutive blocks, each holding <= 1 transaction of {(empty), "+strings.Join(chainLetterNames[1:], ", ")+"}, on the parent states "+strings.Join(cpn, ", ")+
 		" (the +factory parent states: every sequence of 2 blocks over the block letters {"+strings.Join(recreateLetters, " | ")+"}, where 'killA,payA' and 'killA,mk2B' are blocks of TWO transactions that destruct the contract and re-fund / re-create the same address within one block, "+
+		"'killA,rvA' and 'killA,oogA' destruct it and then have a reverter contract CALL the address with value and REVERT / run out of gas in a later transaction of the same block, "+
 		"payA pays the address directly and fwdA through a forwarder contract (CALL with value, then BALANCE and EXTCODESIZE); thorough additionally every 3-block sequence over {(empty), setB, clrA, readB, killA, mk2B})"+
 		" whose multi-purpose contract is part of the GENESIS allocation with non-zero values in slots 1..5 (resident in the snapshot disk layer), built block after block through the real proposer path, executed on fresh nodes under "+
 		fmt.Sprint(nChainVariants)+" variants {cache configuration} x {repetition} x {no restart, clean restart between blocks, restart that enables snapshots (snapshot regenerated from the head state)} x "+
@@ -1240,6 +1250,7 @@ func main() {
 		r.Require(recreated > 0, "no chain re-created the contract at the same address after a self-destruct")
 		r.Require(generatingExecs.Load() > 0 && notCoveredProbes.Load() > 0, fmt.Sprintf("no block was executed while the snapshot was still being generated (executions with genMarker != nil: %d, account reads answered ErrNotCoveredYet: %d)", generatingExecs.Load(), notCoveredProbes.Load()))
 		r.Require(generatingBroken.Load() == 0, fmt.Sprintf("%d executions of a 'snapshot still generating' node found the generation finished or the probe covered", generatingBroken.Load()))
+		r.Require(revertedResurrection > 0, "no chain had the contract self-destruct, a later transaction of the same block CALL it with value and revert (receipt failed, address gone afterwards), and a later block touch the address")
 		r.Require(recreatedInBlock > 0, "no chain destructed and re-funded/re-created the contract's address within one block and paid it in a later block")
 		r.Require(flattenings.Load() > 0, "the snapshot was never flattened to disk (Tree.Cap(root, 0) never succeeded)")
 		for _, t := range alphabet {
